@@ -249,11 +249,19 @@ theorem decodeVoiced_spec {rate : Rate} {nbSubfr sig cc prevSig : Nat} {prevLag 
     simp only [after_append, after_cons_cons] at h
     rcases h with ⟨⟨⟨h1, h2, h2'⟩, h3⟩, h4⟩
     rw [after_append, after_append, after_append, after_cons_cons]
-    rw [decodeLag_spec hlag h1]
-    simp only
-    rw [sym_spec h2]
-    simp only
-    rw [decodeLtp_spec hltp (fun hc => hsc (fun hh => hc hh.2)) h2' h3 h4]
+    split
+    rename_i lag c1 e1
+    rw [decodeLag_spec hlag h1] at e1
+    cases e1
+    split
+    rename_i con c2 e2
+    rw [sym_spec h2] at e2
+    cases e2
+    split
+    rename_i per ltp scale c3 e3
+    rw [decodeLtp_spec hltp (fun hc => hsc (fun hh => hc hh.2)) h2' h3 h4] at e3
+    cases e3
+    rfl
   · simp only [hs, if_false] at h hlag hltp ⊢
     rw [hlag, hcon hs, hper hs, hsc (fun hh => hs hh.1), List.length_eq_zero_iff.mp hltp, after_nil]
 
